@@ -418,6 +418,16 @@ def modular_call(I, c, args, kw, st, node):
         for rn, rt in c.returns:
             if isinstance(rt, tuple) and rt[0] == "Param":
                 v = bound[rt[1]]
+            elif isinstance(rt, tuple) and rt[0] == "Expr":
+                # the callee returns (a reference to) something reachable from its parameters, e.g. self._clock_struct
+                tmp = post.copy()
+                tmp.spec = True
+                v = I.ev(ast.parse(rt[1], mode="eval").body, tmp)
+                for oid_, rec_ in tmp.heap.items():
+                    if oid_ not in post.heap:
+                        post.heap[oid_] = rec_
+                    if oid_ not in st.heap:
+                        st.heap[oid_] = rec_
             elif isinstance(rt, tuple) and rt[0] == "Arr":
                 ln = rt[2] if len(rt) > 2 else None
                 if isinstance(ln, str):
